@@ -14,7 +14,7 @@ for d in sorted(glob.glob('/verif/seeded/*/')):
     desc = re.sub(r'\s+', ' ', desc)[:170]
     rows.append((os.path.basename(d.rstrip('/')), desc, m['detected']['summary']))
 def rnd(name):
-    return 11 if '-r11-' in name else 10 if '-r10-' in name else 9 if '-r9-' in name else 8 if '-r8-' in name else 7 if '-r7-' in name else 6 if '-r6-' in name else 5 if '-r5-' in name else 4 if '-r4-' in name else 3 if '-r3-' in name else 2 if '-r2-' in name else 1
+    return 12 if '-r12-' in name else 11 if '-r11-' in name else 10 if '-r10-' in name else 9 if '-r9-' in name else 8 if '-r8-' in name else 7 if '-r7-' in name else 6 if '-r6-' in name else 5 if '-r5-' in name else 4 if '-r4-' in name else 3 if '-r3-' in name else 2 if '-r2-' in name else 1
 stats = {}
 for r in rows:
     k = rnd(r[0])
@@ -52,7 +52,8 @@ touches the property's code, another maintenance commit; round 9 repeated round 
 changes listed, as a control sample, and so did round 10 with nineteen (three agents delivered only one change or none
 within their budget: 35 changes); round 11 was classical mutation testing: up to three single-edit mutants per property
 (operator, constant, bound, deleted statement, swapped arguments, a local moved to package level) that survive the
-repository's own suite and are not equivalent, 57 in all. Each change compiles, passes the repository's own
+repository's own suite and are not equivalent, 57 in all; round 12 repeated the brief of rounds 8-10 for the twelve
+properties whose checks had needed most strengthening (21 changes). Each change compiles, passes the repository's own
 test-suite and comes with a demonstration test that fails with the change and passes without it; all of that was
 re-confirmed with `tools/eval_mut.sh` (C19-r2-2 by hand under `-race`) before the change was kept under
 `seeded/<property>-<k>/`, `seeded/<property>-r<round>-<k>/` (`patch.diff`, `demo_test.go.txt`,
@@ -63,10 +64,10 @@ git -C /repo checkout -- .`.
 |---|---|---|---|---|
 """ + "".join(f"| {k} | {v[0]} | {v[0]-v[1]-v[2]} | {v[1]} | {v[2]} |\n" for k, v in sorted(stats.items())) + """
 (For round 2 the checks had already been extended after reading the authors' notes, so "on arrival" is generous there;
-for rounds 1, 3, 4, 5, 6, 7, 8, 9, 10 and 11 every change was run first.) After the strengthenings every seeded change is reported by the quick
+for rounds 1, 3, 4, 5, 6, 7, 8, 9, 10, 11 and 12 every change was run first.) After the strengthenings every seeded change is reported by the quick
 tier of some check, except C04-r2-3 (quick: about one seed in four; thorough: always), C03-r9-1 and C11-r9-1 (thorough
 tier only) and the two changes to `Load` that lie outside the property as stated (C04-r6-1, C04-r6-2). The trend over
-the rounds (share reported on arrival: 88, 73, 65, 50, 53, 89, 85, 65, 70, 74, 100 percent) shows what this technique can and
+the rounds (share reported on arrival: 88, 73, 65, 50, 53, 89, 85, 65, 70, 74, 100, 71 percent) shows what this technique can and
 cannot claim: each round of independent changes still found regimes no generator reached, every such regime was then
 added, and nothing here establishes that the next round would find none. Changes reported by a different
 check than the one they were written for: C03-r2-1 (C01/C02), C03-r2-2 (C19), C03-r2-3 (C18), C10-r3-2 (C06),
@@ -91,7 +92,10 @@ next strengthenings (independent decoded graphs, aliased arguments, writers with
 Round 10: 26 of 35 on arrival; two belong to another property's check (C09-r10-2 to C06, C19-r10-1 to C13), seven led to
 the last strengthenings (results of encoders and decoders owned by the caller, Roots, near-intervals, a big shared graph
 under the race detector, hundreds of large TSP tables with mixed-width weights, FlowerSnark(1)). Round 11 (57 classical
-single-edit mutants that survive the repository's suite): all 57 were reported by the quick tier on arrival.
+single-edit mutants that survive the repository's suite): all 57 were reported by the quick tier on arrival. Round 12:
+15 of 21 on arrival; four belong to another property's check and were reported there (C07-r12-2 and C09-r12-1 by C06,
+C13-r12-1 by C12, C19-r12-2 by C02 after one more comparison), two led to the last strengthenings (arguments of Union
+re-checked after later operations; the shards of All(8) run concurrently).
 
 | seeded change | what it does (from the author's note) | result |
 |---|---|---|
